@@ -3,6 +3,12 @@
      pyrtma/data_logger/data_set.py         (DataSet: start/stop/close/stage_for_write/write/subdivide)
    Executable, proof-free.
 
+   This file holds everything the two versions of the hand-off share (data sets, buffers as references, files, program
+   counters, recorder operations, trigger_write, the writer loop `wstep`, scheduling) and, in `rstep` / `step` / `run`,
+   the recorder's side of the hand-off AS IT WAS BEFORE commit 510a13f (historical: Props/C17Before.v).
+   The CURRENT code is Model/LoggerFixed.v (`rstepF` / `stepF` / `runF`), which redefines the three recorder steps that
+   510a13f changed and reuses the rest.
+
    Threads: R = the recording thread (executes a program of operations and finally close()),
             W = the collection's writer thread (DataCollection.write).
    Atomic step = from one switch point to the next.  Switch points are, on entry (before the operation):
